@@ -355,6 +355,49 @@ def runtime_part(run, tier, seed):
                           key={"dtype": np.dtype(dt).name, "root_kind": "leaf"}, replay={})
 
 
+def repeat_part(run, tier):
+    """'repeating an operation on unchanged operands gives bit-identical results' for whole forward+backward programs in which a tensor has several consumers (the order
+    of the float accumulations into its gradient must be fixed by the graph, not by object addresses): (1) static -- every loop of Tensor.backward takes its order from a
+    list or a _children tuple, no set is iterated; (2) bounded -- a fixed fan-out program repeated with garbage allocated in between, all results and gradients compared
+    by bytes.  Shared with C19 (vf/rtc/static_scan.py, vf/rtc/repro.py)."""
+    from ..rtc import repro, static_scan as S
+    bo = S.backward_order()
+    run.add_counts(obligations=1, discharged=0 if bo["bad"] else 1, backend="static-ast")
+    for b in bo["bad"]:
+        run.violation("Tensor.backward.order_taken_from_the_graph", "%s: loop over `%s` does not take its order from a list / _children tuple, so the order of the "
+                      "accumulations into a shared operand's gradient depends on object addresses" % (b["where"], b["name"]),
+                      key=b, replay={"static": bo, "verifier_output": bo}, reproduced=False)
+    import numpy as np
+    import synapgrad as sg
+
+    def fan_program():
+        k = np.arange(1, 25, dtype=np.float32)
+        x = sg.tensor((np.sin(k) * 3.7).reshape(4, 6), requires_grad=True)
+        cs = [0.1, 1.7, -2.3, 1e-3, 33.3, -0.77, 5.01]
+        parts = [x * c for c in cs]
+        y = sg.concat(parts, 0)
+        z = ((x * cs[0] + x * cs[1]) + x * cs[2]) + (x * cs[3] + sg.exp(x * 0.01))
+        loss = (y * y).sum() + (z * 1.3).sum() + sg.stack([x * c for c in cs[:5]], 0).sum()
+        loss.backward()
+        return [("loss", loss.data.tobytes()), ("x.grad", x._grad.tobytes())]
+    keep = []
+    for prog_name, prog, times in (("fixed_program", repro.fixed_program, 3), ("fan_program", fan_program, 40 if tier == "quick" else 400)):
+        first = None
+        for r in range(times):
+            cur = prog()
+            run.rt(("repeat", prog_name, r))
+            if first is None:
+                first = cur
+            elif [list(c) for c in cur] != [list(c) for c in first]:
+                diff = [a[0] for a, b in zip(first, cur) if list(a) != list(b)]
+                run.violation("Tensor.backward.repeat_bit_identical", "%s: repetition %d of the same forward+backward program on the same operand values differs bitwise in %s" %
+                              (prog_name, r, diff), key={"program": prog_name, "arrays": diff}, replay={"program": prog_name, "repetition": r, "arrays": diff})
+                break
+            junk = [sg.tensor(np.zeros(1 + (i * 7 + r) % 13), requires_grad=bool(i % 2)) for i in range(100 + 37 * (r % 5))] + [object() for _ in range(500 + 101 * (r % 7))]
+            keep.append(junk[::3])
+            del junk
+
+
 def main(tier="quick", seed=0, procs=None, only=None):
     run = Run("C11", tier, seed, "other")
     run.assume("reals", "numpy", "shims", "engines", "bounded-shapes")
@@ -384,4 +427,8 @@ def main(tier="quick", seed=0, procs=None, only=None):
         runtime_part(run, tier, seed)
     except Exception as e:
         run.error("runtime snapshots failed", e)
+    try:
+        repeat_part(run, tier)
+    except Exception as e:
+        run.error("repetition part failed", e)
     return run.finish()
